@@ -2,6 +2,8 @@
 # Build the framework from files on disk only (offline).  Regenerates the kernel models from /repo first.
 set -e
 cd "$(dirname "$0")"
+# the regeneration below writes lean/GSV/Gen: take the generation lock exclusively (see vlib/core.py GenGuard)
+if [ -z "$GSV_SETUP_LOCKED" ]; then GSV_SETUP_LOCKED=1 exec flock lean/.gen.lock "$0" "$@"; fi
 export PYTHONPATH="/verif/vlib:/repo/src:$PYTHONPATH"
 /venv/bin/python -W ignore -c "
 import sys; sys.path.insert(0,'vlib')
@@ -18,3 +20,14 @@ for f in sorted(glob.glob('vlib/registry/*.json')):
 print(' '.join(m))" 2>/dev/null)
 cd lean
 flock .lake.lock lake build GSV gsvdriver $MODS 2>&1 | grep -v conda.cli | tail -5
+# informative modules (registry key "informative": exact, carrier-polymorphic form of tie A): built when they build, never fatal
+INFO=$(cd .. && /venv/bin/python -c "
+import json,glob
+m=[]
+for f in sorted(glob.glob('vlib/registry/*.json')):
+    for x in json.load(open(f)).get('informative', {}).get('modules', []):
+        if x not in m: m.append(x)
+print(' '.join(m))" 2>/dev/null)
+if [ -n "$INFO" ]; then
+  flock .lake.lock lake build $INFO 2>&1 | grep -v conda.cli | tail -2 || true
+fi
